@@ -180,6 +180,18 @@ def compare_core(result, core):
     return None
 
 
+def ellipsoid_depth(N, c, radii, pad):
+    """For every voxel of box N: Euclidean distance (voxels) from the voxel to the nearest lattice point that violates the
+    ellipsoid inequality (lattice extended `pad` voxels beyond every face; 0 for voxels outside the ellipsoid)."""
+    from scipy import ndimage
+    Np = tuple(int(n) + 2 * pad for n in N)
+    cp = tuple(int(v) + pad for v in c)
+    inside = ellipsoid(Np, cp, radii)[0]
+    depth = ndimage.distance_transform_edt(inside)
+    sl = tuple(slice(pad, pad + int(n)) for n in N)
+    return depth[sl]
+
+
 # ---- shape strings ---------------------------------------------------------------------------------------
 _NAME = re.compile(r"\A([a-z_]+?)((?:_[a-z]+[0-9]+)+)\Z")
 
